@@ -1,5 +1,5 @@
 SPECIFICATION Spec
-CONSTANTS Variant = "ok"  MaxT = 3  Drives <- DrivesQ  InvEps <- IeQ  CellKinds <- KindsQ  Losses <- LossQ
+CONSTANTS Variant = "no_divisor"  MaxT = 3  Drives <- DrivesQ  InvEps <- IeQ  CellKinds <- KindsQ  Losses <- LossQ
 INVARIANT TypeOK
 INVARIANT History
 INVARIANT Recurrence
